@@ -187,6 +187,36 @@ def authTelnetP (cfg : Cfg) (userP passP : Bytes → Bool) (u p : Bytes) (umax p
          else authTelnetP cfg userP passP u p umax pmax f [p, cfg.ret] uc (pc + 1) [] none)
       else authTelnetP cfg userP passP u p umax pmax f [] uc pc b' none
 
+/-- `Channel.SendInputB` with its options: interim prompt patterns (`ReadUntilAnyPrompt` over the
+    channel prompt and the interim ones instead of `ReadUntilPrompt`) and eager (no read after the
+    return; the return itself is then not a phase of its own). -/
+def sendInputXP (cfg : Cfg) (cmd : Bytes) (T : Nat) (interim : List (Bytes → Bool)) (eager : Bool) :
+    Prog Bytes :=
+  .io [cmd] (echoPred cfg cmd) (some T) fun _ =>
+    if eager then .ret (processOut cfg [])
+    else
+      .io [cfg.ret]
+        (if interim.isEmpty then promptPred cfg else anyPromptPred cfg (cfg.promptP :: interim)) none
+        fun rb => .ret (processOut cfg rb)
+
+/-- `Channel.authenticateSSH` under `AuthenticateSSH`'s timer: one read loop over the whole buffer
+    `b` (no search window), which is reset whenever a secret has been sent. `sshErr` =
+    `sshMessageHandler` found an error text, `passP` / `ppP` = password / passphrase prompt. -/
+def authSSHP (cfg : Cfg) (sshErr passP ppP : Bytes → Bool) (p pp : Bytes) (pmax ppmax : Nat) :
+    Nat → List Bytes → Nat → Nat → Option Nat → Prog Bytes
+  | 0, _, _, _, _ => .fail .other
+  | f + 1, ws, pc, ppc, T =>
+    .io ws (fun b => sshErr b || cfg.promptP b || passP b || ppP b) T fun b =>
+      if sshErr b then .fail .connection
+      else if cfg.promptP b then .ret b
+      else if passP b then
+        (if pc + 1 > pmax then .fail .auth
+         else authSSHP cfg sshErr passP ppP p pp pmax ppmax f [p, cfg.ret] (pc + 1) ppc none)
+      else if ppP b then
+        (if ppc + 1 > ppmax then .fail .auth
+         else authSSHP cfg sshErr passP ppP p pp pmax ppmax f [pp, cfg.ret] pc (ppc + 1) none)
+      else .fail .other
+
 /-- `netconf.Driver.getServerCapabilities`: one read until the 1.0 delimiter, nothing written -/
 def helloP (cfg : Cfg) (T : Nat) : Prog Bytes :=
   .io [] (promptPred cfg) (some T) fun rb => .ret rb
